@@ -85,7 +85,7 @@ pub enum TypeRef {
 pub enum MaxOcc {
     Absent,
     One,
-    N(u8),
+    N(u32),
     Unbounded,
 }
 
@@ -172,6 +172,10 @@ pub struct Body {
     pub base: Option<QRef>,
     pub seq: Option<Seq>,
     pub attrs: Vec<Attr>,
+    /// (extensions only) the sequence consists of a single choice and the choice is written
+    /// directly under xs:extension, without the sequence wrapper
+    #[serde(default)]
+    pub direct_choice: bool,
 }
 
 #[derive(Clone, Debug, PartialEq, Eq, Serialize, Deserialize)]
@@ -378,7 +382,10 @@ impl R<'_> {
             self.line(ind, &format!("<{xs}:complexContent>"));
             self.line(ind + 1, &format!("<{xs}:extension base=\"{}\">", esc_attr(&q)));
             if let Some(s) = &b.seq {
-                self.seq(ind + 2, s);
+                match (b.direct_choice, s.parts.as_slice()) {
+                    (true, [p @ Particle::Choice { .. }]) if !s.min0 && !s.unbounded => self.particle(ind + 2, p),
+                    _ => self.seq(ind + 2, s),
+                }
             }
             self.attrs(ind + 2, &b.attrs);
             self.line(ind + 1, &format!("</{xs}:extension>"));
